@@ -897,20 +897,35 @@ def _alarm(signum, frame):
     raise CaseTimeout()
 
 
-CASE_TIMEOUT_S = 5
+CASE_TIMEOUT_S = [10.0]      # wall clock; doubled whenever a timeout turns out to be machine load
+HANG_CONFIRM_S = 90.0
 _TIMEOUTS = [0]
+_HANG_CONFIRMED = [False]
 
 
-def run_impl(case):
-    """(steps, cache ids).  A case that does not finish in CASE_TIMEOUT_S (a back end waiting for a lock it already
-    holds, say) is cut off: the step it hung in answers ("raised", "CaseTimeout")."""
+def _run_timed(case, seconds):
     old = signal.signal(signal.SIGALRM, _alarm)
-    signal.setitimer(signal.ITIMER_REAL, CASE_TIMEOUT_S)
+    signal.setitimer(signal.ITIMER_REAL, seconds)
     try:
         return _run_impl(case)
     finally:
         signal.setitimer(signal.ITIMER_REAL, 0)
         signal.signal(signal.SIGALRM, old)
+
+
+def run_impl(case):
+    """(steps, cache ids).  A case that does not finish (a back end waiting for a lock it already holds, say) is cut
+    off: the step it hung in answers ("raised", "CaseTimeout").  The first timeout of a run is confirmed by running
+    the case again with a long limit, so that a loaded machine is not taken for a hang."""
+    res = _run_timed(case, CASE_TIMEOUT_S[0])
+    hung = any(st["resp"] == ("raised", "CaseTimeout") for st in res[0])
+    if hung and not _HANG_CONFIRMED[0]:
+        res = _run_timed(case, HANG_CONFIRM_S)
+        if any(st["resp"] == ("raised", "CaseTimeout") for st in res[0]):
+            _HANG_CONFIRMED[0] = True
+        else:
+            CASE_TIMEOUT_S[0] *= 2
+    return res
 
 
 def _run_impl(case):
@@ -1440,7 +1455,7 @@ def run_stream(ctx, backend, n, seen_sites, k0):
     outs = drv.ask_many(lines)
     t_before = _TIMEOUTS[0]
     for case, line in zip(cases, outs):
-        if _TIMEOUTS[0] - t_before > 12:
+        if _TIMEOUTS[0] - t_before > 4:
             ctx.notes.append("%s: stream stopped after repeated case timeouts (back end hangs)" % backend)
             ctx.log("%s: stream stopped after repeated case timeouts" % backend)
             break
